@@ -1,0 +1,203 @@
+// Verification seams. Compiled only with `--cfg betaveros_noulith_verif`; the shipped build
+// never sees this file. Everything here is thread-local so that simulated runs confined to one
+// thread do not influence each other.
+//
+// H1: evaluation budget / cancellation point (`tick`).
+// H2: hasher seam. `HashMap` below replaces `std::collections::HashMap` in the interpreter so that
+//     iteration order and bucket choice come from a seed the simulator owns instead of from
+//     `RandomState`; `key_hash_mode` lets the simulator degrade the hash of dictionary keys
+//     (every legal `Hash` must give the same observable behaviour under any of the modes).
+
+use std::cell::Cell;
+use std::hash::{BuildHasher, Hasher};
+
+use crate::core::{NErr, NRes};
+
+// ---------------------------------------------------------------------------------------------
+// H1
+
+thread_local! {
+    static TICKS: Cell<u64> = Cell::new(0);
+    // sticky limit: once TICKS > LIMIT every tick fails
+    static LIMIT: Cell<u64> = Cell::new(u64::MAX);
+    // one-shot fault: the tick that makes TICKS == FAULT_AT fails once (0 = disarmed)
+    static FAULT_AT: Cell<u64> = Cell::new(0);
+    static FAULTS_FIRED: Cell<u64> = Cell::new(0);
+    static LIMIT_HITS: Cell<u64> = Cell::new(0);
+}
+
+pub const FUEL_MESSAGE: &str = "verif: fuel";
+pub const CANCEL_MESSAGE: &str = "verif: cancelled";
+
+#[inline]
+pub fn tick() -> NRes<()> {
+    let t = TICKS.with(|c| {
+        let t = c.get().wrapping_add(1);
+        c.set(t);
+        t
+    });
+    if t > LIMIT.with(|c| c.get()) {
+        LIMIT_HITS.with(|c| c.set(c.get() + 1));
+        return Err(NErr::throw(FUEL_MESSAGE.to_string()));
+    }
+    if t == FAULT_AT.with(|c| c.get()) {
+        FAULT_AT.with(|c| c.set(0));
+        FAULTS_FIRED.with(|c| c.set(c.get() + 1));
+        return Err(NErr::throw(CANCEL_MESSAGE.to_string()));
+    }
+    Ok(())
+}
+
+pub fn ticks() -> u64 {
+    TICKS.with(|c| c.get())
+}
+pub fn reset_ticks() {
+    TICKS.with(|c| c.set(0));
+    LIMIT_HITS.with(|c| c.set(0));
+    FAULTS_FIRED.with(|c| c.set(0));
+}
+/// Sticky budget counted from the current tick count; `None` removes it.
+pub fn set_fuel(remaining: Option<u64>) {
+    let now = ticks();
+    LIMIT.with(|c| {
+        c.set(match remaining {
+            Some(n) => now.saturating_add(n),
+            None => u64::MAX,
+        })
+    });
+}
+/// Arm a one-shot cancellation `after` ticks from now (`None` disarms).
+pub fn set_fault_after(after: Option<u64>) {
+    let now = ticks();
+    FAULT_AT.with(|c| {
+        c.set(match after {
+            Some(n) => now.saturating_add(n.max(1)),
+            None => 0,
+        })
+    });
+}
+pub fn fault_armed() -> bool {
+    FAULT_AT.with(|c| c.get()) != 0
+}
+pub fn faults_fired() -> u64 {
+    FAULTS_FIRED.with(|c| c.get())
+}
+pub fn limit_hits() -> u64 {
+    LIMIT_HITS.with(|c| c.get())
+}
+
+// ---------------------------------------------------------------------------------------------
+// H2
+
+thread_local! {
+    static HASH_BASE: Cell<u64> = Cell::new(0x9e37_79b9_7f4a_7c15);
+    static HASH_CTR: Cell<u64> = Cell::new(0);
+    // 0 = every new map draws its own seed (like RandomState), 1 = all new maps share the base
+    static HASH_SEEDING: Cell<u8> = Cell::new(0);
+    // 0 = full, 1 = constant (dictionary keys contribute nothing), 2 = two bits of entropy
+    static KEY_HASH_MODE: Cell<u8> = Cell::new(0);
+    static MAPS_CREATED: Cell<u64> = Cell::new(0);
+}
+
+pub fn set_hash_seed(base: u64, shared: bool) {
+    HASH_BASE.with(|c| c.set(base));
+    HASH_CTR.with(|c| c.set(0));
+    HASH_SEEDING.with(|c| c.set(if shared { 1 } else { 0 }));
+}
+pub fn set_key_hash_mode(mode: u8) {
+    KEY_HASH_MODE.with(|c| c.set(mode));
+}
+pub fn key_hash_mode() -> u8 {
+    KEY_HASH_MODE.with(|c| c.get())
+}
+pub fn maps_created() -> u64 {
+    MAPS_CREATED.with(|c| c.get())
+}
+
+fn mix(mut z: u64) -> u64 {
+    z = z.wrapping_add(0x9e37_79b9_7f4a_7c15);
+    z = (z ^ (z >> 30)).wrapping_mul(0xbf58_476d_1ce4_e5b9);
+    z = (z ^ (z >> 27)).wrapping_mul(0x94d0_49bb_1331_11eb);
+    z ^ (z >> 31)
+}
+
+#[derive(Clone, Debug)]
+pub struct SimState {
+    seed: u64,
+}
+
+impl Default for SimState {
+    fn default() -> SimState {
+        MAPS_CREATED.with(|c| c.set(c.get() + 1));
+        let base = HASH_BASE.with(|c| c.get());
+        if HASH_SEEDING.with(|c| c.get()) == 1 {
+            SimState { seed: mix(base) }
+        } else {
+            let n = HASH_CTR.with(|c| {
+                let n = c.get();
+                c.set(n + 1);
+                n
+            });
+            SimState {
+                seed: mix(base ^ mix(n)),
+            }
+        }
+    }
+}
+
+pub struct SimHasher {
+    state: u64,
+}
+
+impl Hasher for SimHasher {
+    #[inline]
+    fn write(&mut self, bytes: &[u8]) {
+        let mut s = self.state;
+        for chunk in bytes.chunks(8) {
+            let mut w = [0u8; 8];
+            w[..chunk.len()].copy_from_slice(chunk);
+            s = (s.rotate_left(5) ^ u64::from_le_bytes(w)).wrapping_mul(0x2545_f491_4f6c_dd1d);
+        }
+        s = (s.rotate_left(5) ^ bytes.len() as u64).wrapping_mul(0x2545_f491_4f6c_dd1d);
+        self.state = s;
+    }
+    #[inline]
+    fn finish(&self) -> u64 {
+        mix(self.state)
+    }
+}
+
+impl BuildHasher for SimState {
+    type Hasher = SimHasher;
+    fn build_hasher(&self) -> SimHasher {
+        SimHasher { state: self.seed }
+    }
+}
+
+pub type HashMap<K, V> = std::collections::HashMap<K, V, SimState>;
+
+/// Supplies `HashMap::new()` for the seamed alias (std only has it for `RandomState`).
+pub trait NewExt {
+    fn new() -> Self;
+}
+impl<K, V> NewExt for HashMap<K, V> {
+    fn new() -> Self {
+        std::collections::HashMap::with_hasher(SimState::default())
+    }
+}
+
+/// Used by `Hash for ObjKey`: in degraded modes the key contributes nothing (mode 1) or two bits
+/// (mode 2) to the hash, so only `Eq` can tell keys apart.
+pub struct TwoBitHasher(pub u64);
+impl Hasher for TwoBitHasher {
+    fn write(&mut self, bytes: &[u8]) {
+        let mut s = self.0;
+        for b in bytes {
+            s = (s ^ *b as u64).wrapping_mul(0x0000_0100_0000_01b3);
+        }
+        self.0 = s;
+    }
+    fn finish(&self) -> u64 {
+        mix(self.0)
+    }
+}
